@@ -14,6 +14,7 @@ import FwdVerif.Driver.C19
 import FwdVerif.Driver.C14
 import FwdVerif.Driver.C07
 import FwdVerif.Driver.C15
+import FwdVerif.Driver.H2
 
 open FwdVerif
 
@@ -31,6 +32,8 @@ def dispatch (line : String) : String :=
   | "C14" :: rest => C14.handle rest
   | "C07" :: rest => C07.handle rest
   | "C15" :: rest => C15.handle rest
+  | "C09" :: rest => H2.handle rest
+  | "C10" :: rest => H2.handle rest
   | ["ping"] => "pong"
   | _ => "bad-op"
 
